@@ -13,6 +13,7 @@ Violations(line) ==
   \cup R("honest-answer-refused", ~o.returned /\ D_Returned(in) /\ "annAppended" \notin Devs(in))
      \* whatever is returned passes an independent re-check against the request
   \cup R("returned-signature-unsound", o.returned /\ ~o.sound)
+  \cup R("annotations-of-another-answer", o.returned /\ o.annLeak)
      \* exactly one of signature / error
   \cup R("signature-and-error", o.returned = o.err)
 
